@@ -44,6 +44,23 @@ def build(ctx):
     for a, b in cfg.get('ordered', []):
         ctx.require(vals[a] <= vals[b])
     ctx.vals = vals
+    if cfg.get('prelude_loop'):
+        # this process has already run (and finished) one event loop in which a bus processed an event, as scripts with several
+        # asyncio.run() calls and test suites do; everything bound to that loop is stale now
+        ctx.new_loop(horizon=3)
+
+        async def _prelude():
+            z = env_EventBus()(name='Prelude')
+
+            def hz(ev):
+                return 'z'
+            z.on('*', hz)
+            e = z.dispatch(E.X(event_timeout=30.0))
+            await e
+            await z.stop(clear=True)
+        ctx.run(_prelude())
+        ctx.teardown()
+        ctx.records.clear()
     ctx.new_loop(horizon=cfg.get('horizon', 6))
     par = set(cfg.get('parallel', []))
     hist = cfg.get('max_history', {})
@@ -311,6 +328,13 @@ async def _run_script(ctx, inv, ev, script):
             for i in range(nn):
                 try:
                     inv.dispatch(ctx.buses[bus], _mk_event(ctx, cls, f'{prefix}{i}'))
+                except Exception:
+                    ctx.rejected_labels = getattr(ctx, 'rejected_labels', []) + [(bus, f'{prefix}{i}')]
+        elif op == 'redispatch_rejected':
+            # the very event objects whose dispatch was rejected are offered again (after the bus has drained)
+            for (bus, lab) in list(getattr(ctx, 'rejected_labels', [])):
+                try:
+                    inv.dispatch(ctx.buses[bus], ctx.events[lab])
                 except Exception:
                     pass
         # ---- main / actor only
